@@ -73,6 +73,10 @@ def run(ctx, replay):
         for s in [x for x in chosen if len(x) <= 2] + rng.sample(deep, 40 if quick else 400):
             sc = dict(rng.choice(scripts(rng, full=True)), hijack=False, early=True, status=rng.choice([200, 404, 500, 201]))
             steps.append({"layers": s, "script": sc})
+        # handlers that use the header map directly (nil value suppresses an automatic header, verbatim keys)
+        for s in [x for x in chosen if len(x) <= 2] + rng.sample(deep, 40 if quick else 400):
+            sc = dict(rng.choice(scripts(rng, full=True)), hijack=False, rawmap=True)
+            steps.append({"layers": s, "script": sc, "via": rng.choice(["server", "recorder"])})
         scs = [{"id": "stacks-%d" % i, "cfg": {}, "steps": steps[i:i + 200]} for i in range(0, len(steps), 200)]
     tp = vlib.run_scenarios(ctx, "stack", scs, "c20", hang_s=60)
     res = vlib.validate_trace(ctx, "Trace_Stack", tp, "c20")
